@@ -439,11 +439,14 @@ Definition m_get_tumor_spread_params (m : midline) (as_flat : bool) : pdict :=
              params)
     end in
   maybe_flatten as_flat params.
-(** [None] = ValueError "LNL spread params not synched between ext and noext models" *)
+(** the comparison [ext_lnl_params != noext_lnl_params] only triggers a warning
+    (since the fix 0d1d468; it used to raise ValueError): [false] = warning issued *)
+Definition m_lnl_synced (m : midline) : bool :=
+  pdict_eqb (b_get_lnl_spread_params (ml_ext m) false) (b_get_lnl_spread_params (ml_noext m) false).
+(** always [Some]: the ext model's LNL parameters are returned whether or not the
+    noext model agrees (the [option] is kept for type stability) *)
 Definition m_get_lnl_spread_params (m : midline) (as_flat : bool) : option pdict :=
-  let ext_lnl := b_get_lnl_spread_params (ml_ext m) false in
-  let noext_lnl := b_get_lnl_spread_params (ml_noext m) false in
-  if pdict_eqb ext_lnl noext_lnl then Some (maybe_flatten as_flat ext_lnl) else None.
+  Some (maybe_flatten as_flat (b_get_lnl_spread_params (ml_ext m) false)).
 Definition m_get_spread_params (m : midline) (as_flat : bool) : option pdict :=
   let params := m_get_tumor_spread_params m false in
   match m_get_lnl_spread_params m false with
@@ -619,7 +622,7 @@ Definition m_set_distribution_params (m : midline) (a : args) (kw : kwargs) : mi
 
 Definition m_set_params (m : midline) (a : args) (kw : kwargs) : midline * option args :=
   match m_get_params m true with
-  | None => (m, None)                                    (* get_params raised *)
+  | None => (m, None)                                    (* get_params raised: cannot happen any more *)
   | Some ps =>
       let '(before, last, after) := popat a (Z.of_nat (length ps) - 1)%Z in
       let mp := match kw_get ["midext"; "prob"] kw with Some v => Some v | None => last end in
